@@ -207,7 +207,7 @@ PROPS["C01"] = dict(
     floors={"quick": {"forced_collections": 50, "threshold_collections_that_freed_something": 10,
                       "sweeps_that_freed_something": 10, "rootkind_checked:stack": 1,
                       "rootkind_checked:root-holder": 1, "rootkind_checked:thread-local": 1, "rings": 1,
-                      "complete_graphs": 1, "chains_of_1e6": 1, "container_bursts": 10, "explicit_deletions": 5,
+                      "complete_graphs": 1, "chains_of_1e6": 1, "container_bursts": 10, "cases_run_in_a_worker_thread": 20, "explicit_deletions": 5,
                       "boxes": 10}},
     rule="case = one heap driven through 40-200 (thorough: up to 540) random mutator operations with the "
          "reachable-set oracle after every operation; distinct = hash of the operation list; non-trivial = at least "
